@@ -1,5 +1,9 @@
 (** C21 — the invariant over events and histories; block clause; the
-    short-hash clause under injectivity; its refutation without. *)
+    short-hash clause under injectivity; without injectivity: an index entry
+    stays with the transaction that owns it while that one is pooled, a
+    transaction pushed while none of the pooled ones has its short hash is
+    indexed; the full clause is still refuted (a transaction pushed while
+    another one with its short hash is pooled is never indexed). *)
 From Coq Require Import List ZArith NArith Bool Lia.
 From C33 Require Import C21.Model C21.Spec C21.ProofsLm C21.ProofsInv.
 Import ListNotations.
@@ -226,8 +230,14 @@ Proof.
   assert (NDq : NoDup (keys (s_q st))) by (rewrite <- qtx_keys; apply (k_nodup _ _ _ K)).
   apply inj_nodup in I. split.
   - unfold sh_exact. rewrite (qtx_remove sh h st it NDq G).
-    rewrite (cache_remove_eq sh h st it G). cbn [s_sh]. unfold sh_remove.
-    rewrite (lm_remove_filter _ _ (k_sh_nodup _ _ _ K)). rewrite E.
+    rewrite (cache_remove_eq sh h st it G). cbn [s_sh].
+    assert (Hin : In (h, i_tx it) (qtx st)) by (apply qtx_in; apply lm_get_in; exact G).
+    assert (Eh : t_h (i_tx it) = h).
+    { pose proof (k_keys _ _ _ K) as Kk. rewrite Forall_forall in Kk. symmetry. exact (Kk _ Hin). }
+    assert (Gs : lm_get (sh h) (s_sh st) = Some (i_tx it)).
+    { apply lm_in_get; [apply (k_sh_nodup _ _ _ K)|]. rewrite E. apply in_map_iff.
+      exists (h, i_tx it). split; [reflexivity|exact Hin]. }
+    rewrite (sh_remove_owner sh h _ _ (k_sh_nodup _ _ _ K) Gs Eh). rewrite E.
     apply filter_map_shF.
     + rewrite qtx_keys. exact I.
     + rewrite qtx_keys. apply lm_get_in in G. eapply in_keys; eauto.
@@ -366,7 +376,206 @@ Proof.
   - apply IH; assumption.
 Qed.
 
-(** * without injectivity the short-hash clause fails *)
+(** * what holds without injectivity: an index entry stays with its owner *)
+(** [t], pooled under hash [h], is the transaction found under its short hash *)
+Definition sh_owner (sh : N -> N) (st : state) (h : N) (t : tx) : Prop :=
+  In (h, t) (qtx st) /\ lm_get (sh h) (s_sh st) = Some t.
+(** every pooled transaction's short-hash lookup is non-empty *)
+Definition sh_covers (sh : N -> N) (st : state) : Prop :=
+  forall h t, In (h, t) (qtx st) -> lm_get (sh h) (s_sh st) <> None.
+
+Lemma sh_agrees_covers sh st : sh_agrees sh st -> sh_covers sh st.
+Proof. intros A h t Hin. rewrite (A h t Hin). discriminate. Qed.
+
+Lemma owner_hash sh c st h t : consistent sh c st -> In (h, t) (qtx st) -> h = t_h t.
+Proof.
+  intros K Hin. pose proof (k_keys _ _ _ K) as Kk. rewrite Forall_forall in Kk. exact (Kk _ Hin).
+Qed.
+
+Lemma cache_remove_owner sh c h0 st h t :
+  consistent sh c st -> sh_owner sh st h t ->
+  In h (keys (s_q (cache_remove sh h0 st))) -> sh_owner sh (cache_remove sh h0 st) h t.
+Proof.
+  intros K [Hin Hg] Hp. destruct (lm_get h0 (s_q st)) as [it|] eqn:G.
+  2:{ rewrite cache_remove_none by exact G. split; assumption. }
+  assert (Hne : h <> h0).
+  { intros E. subst h0. exact (cache_remove_gone sh c h st K Hp). }
+  assert (NDq : NoDup (keys (s_q st))) by (rewrite <- qtx_keys; apply (k_nodup _ _ _ K)).
+  split.
+  - rewrite (qtx_remove sh h0 st it NDq G). apply filter_In. split; [exact Hin|].
+    unfold neqk. cbn [fst]. apply negb_true_iff. apply N.eqb_neq. exact Hne.
+  - rewrite (cache_remove_eq sh h0 st it G). cbn [s_sh].
+    apply sh_remove_get_other; [apply (k_sh_nodup _ _ _ K)|exact Hg|].
+    rewrite <- (owner_hash sh c st h t K Hin). exact Hne.
+Qed.
+
+Lemma remove_txs_owner sh c hs : forall st h t,
+  consistent sh c st -> sh_owner sh st h t ->
+  In h (keys (s_q (remove_txs sh hs st))) -> sh_owner sh (remove_txs sh hs st) h t.
+Proof.
+  induction hs as [|h0 tl IH]; intros st h t K O Hp; [exact O|].
+  unfold remove_txs in *. cbn [fold_left] in *. fold (remove_txs sh tl (cache_remove sh h0 st)) in *.
+  assert (K1 : consistent sh c (cache_remove sh h0 st)) by (apply cache_remove_consistent; exact K).
+  apply IH; [exact K1| |exact Hp].
+  apply (cache_remove_owner sh c); [exact K|exact O|].
+  apply (remove_txs_subset sh c tl); assumption.
+Qed.
+
+Lemma sh_push_get_kept sh c t0 h0 (s : lm tx) k t :
+  lm_get k s = Some t -> lm_get k (sh_push sh c t0 h0 s) = Some t.
+Proof.
+  intros G. unfold sh_push. destruct (lm_exist (sh h0) s) eqn:Hex; [exact G|].
+  destruct (c_shmax c <=? lm_size s); [exact G|].
+  apply lm_exist_false in Hex. rewrite (lm_push_fresh _ _ _ Hex), lm_get_app, G. reflexivity.
+Qed.
+
+Lemma cache_push_owner sh c now t0 st h t :
+  1 <= c_peracc c -> consistent sh c st -> sh_owner sh st h t ->
+  sh_owner sh (fst (cache_push sh c now t0 st)) h t.
+Proof.
+  intros Hp K [Hin Hg].
+  destruct (cache_push_cases sh c now t0 st Hp K) as [E|[_ [_ [acc' E]]]]; rewrite E; [split; assumption|].
+  split.
+  - unfold qtx. cbn [s_q]. rewrite map_app. apply in_or_app. left. exact Hin.
+  - cbn [s_sh]. apply sh_push_get_kept. exact Hg.
+Qed.
+
+Lemma del_block_owner sh c now ts : forall st h t,
+  1 <= c_peracc c -> consistent sh c st -> sh_owner sh st h t ->
+  sh_owner sh (del_block sh c now ts st) h t.
+Proof.
+  unfold del_block. induction ts as [|t0 tl IH]; intros st h t Hp K O; [exact O|].
+  cbn [fold_left]. destruct (check_expire_valid now st t0); [|apply IH; assumption].
+  apply IH; [exact Hp|apply cache_push_consistent; assumption|apply cache_push_owner; assumption].
+Qed.
+
+Lemma set_hdr_owner sh x y st h t : sh_owner sh st h t -> sh_owner sh (set_hdr x y st) h t.
+Proof. intros O. exact O. Qed.
+
+(** one event: the owner of an index entry keeps it as long as it stays pooled *)
+Lemma step_owner sh c st e h t :
+  1 <= c_peracc c -> consistent sh c st -> sh_owner sh st h t ->
+  In h (keys (s_q (fst (step sh c st e)))) -> sh_owner sh (fst (step sh c st e)) h t.
+Proof.
+  intros Hp K O. destruct e as [now t0|hs|now|now x y hs|now x y ts]; cbn [step]; intros Hin.
+  - apply cache_push_owner; assumption.
+  - cbn [fst] in *. apply (remove_txs_owner sh c); assumption.
+  - cbn [fst] in *. unfold remove_expired, remove_expired_tx in *. apply (remove_txs_owner sh c); assumption.
+  - set_st1 st1.
+    assert (K1 : consistent sh c st1).
+    { unfold st1. destruct (_ || _); [apply set_hdr_consistent|]; exact K. }
+    assert (O1 : sh_owner sh st1 h t) by (unfold st1; destruct (_ || _); exact O).
+    destruct (0 <? lm_size (s_q st1)); cbn [fst] in *; [|exact O1].
+    assert (K2 : consistent sh c (remove_txs sh hs st1)) by (apply remove_txs_consistent; exact K1).
+    unfold remove_expired, remove_expired_tx in *.
+    apply (remove_txs_owner sh c); [exact K2| |exact Hin].
+    apply (remove_txs_owner sh c); [exact K1|exact O1|].
+    eapply (remove_txs_subset sh c); [exact K2|exact Hin].
+  - cbn [fst]. apply del_block_owner; [exact Hp|apply set_hdr_consistent; exact K|exact O].
+Qed.
+
+(** histories: pooled after every event = never removed *)
+Lemma run_owner sh c es : forall st h t,
+  1 <= c_peracc c -> consistent sh c st -> sh_owner sh st h t ->
+  forallb (fun s => mem_n h (keys (s_q s))) (run_states sh c st es) = true ->
+  sh_owner sh (run sh c st es) h t.
+Proof.
+  unfold run. induction es as [|e tl IH]; intros st h t Hp K O G; [exact O|].
+  cbn [run_states forallb] in G. apply andb_true_iff in G as [G1 G2]. apply mem_n_in in G1.
+  cbn [fold_left]. apply IH; [exact Hp|apply step_consistent; assumption| |exact G2].
+  apply step_owner; assumption.
+Qed.
+
+(** the index is never larger than the pool *)
+Lemma nodup_map_comp {A} (f : A -> N) (g : N -> N) (l : list A) :
+  NoDup (map (fun x => g (f x)) l) -> NoDup (map f l).
+Proof.
+  induction l as [|a tl IH]; cbn [map]; intros ND; [constructor|].
+  inversion ND as [|b bs Hn ND']; subst. constructor; [|auto].
+  intros H. apply Hn. apply in_map_iff in H as [x [E Hx]]. apply in_map_iff.
+  exists x. split; [rewrite E; reflexivity|exact Hx].
+Qed.
+
+Lemma sh_size_le sh c st : consistent sh c st -> lm_size (s_sh st) <= lm_size (s_q st).
+Proof.
+  intros K. pose proof (k_sh_nodup _ _ _ K) as ND. pose proof (k_sh_sub _ _ _ K) as Sub.
+  assert (E : keys (s_sh st) = map (fun p => sh (t_h (snd p))) (s_sh st)).
+  { unfold keys. apply map_ext_in. intros [k t] Hin. cbn [fst snd]. apply (Sub k t Hin). }
+  rewrite E in ND. apply (nodup_map_comp (fun p : N * tx => t_h (snd p)) sh) in ND.
+  assert (I : incl (map (fun p : N * tx => t_h (snd p)) (s_sh st)) (keys (qtx st))).
+  { intros x Hx. apply in_map_iff in Hx as [[k t] [Ex Hin]]. cbn [snd] in Ex. subst x.
+    destruct (Sub k t Hin) as [_ H2]. eapply in_keys; eauto. }
+  pose proof (NoDup_incl_length ND I) as L. rewrite map_length in L.
+  rewrite qtx_keys in L. unfold keys in L. rewrite map_length in L. unfold lm_size. lia.
+Qed.
+
+Lemma cache_push_ok sh c now t st :
+  1 <= c_peracc c -> consistent sh c st -> snd (cache_push sh c now t st) = E_OK ->
+  ~ In (t_h t) (keys (s_q st)) /\ lm_size (s_q st) < c_qcap c /\
+  exists acc',
+    fst (cache_push sh c now t st) =
+      mkSt (s_q st ++ [(t_h t, mkItem t now)]) (s_bytes st + t_size t) acc'
+           (last_push c t (t_h t) (s_last st)) (sh_push sh c t (t_h t) (s_sh st))
+           (s_fee st + t_fee t) (s_hdr st).
+Proof.
+  intros Hp K. unfold cache_push.
+  destruct (acc_can_push c t (s_acc st)) eqn:Hcan; cbn [negb]; [|cbn; discriminate].
+  unfold q_push. cbn [i_tx].
+  destruct (lm_exist (t_h t) (s_q st)) eqn:Hex; [cbn; discriminate|].
+  destruct (c_qcap c <=? lm_size (s_q st)) eqn:Hcap; [cbn; discriminate|].
+  change (N.eqb E_OK E_OK) with true. cbn [negb].
+  assert (Hh : ~ In (t_h t) (keys (s_q st))) by (apply lm_exist_false; exact Hex).
+  assert (Hhl : ~ In (t_h t) (keys (acc_get (t_from t) (s_acc st)))).
+  { rewrite (k_acc _ _ _ K). intros X. apply Hh. rewrite <- qtx_keys. eapply keys_filter_in; eauto. }
+  destruct (acc_push_spec c t (t_h t) (s_acc st) Hp Hcan (k_acc_nodup _ _ _ K) Hhl) as [acc' [Ea _]].
+  rewrite Ea. change (N.eqb E_OK E_OK) with true. cbn [negb fst snd]. intros _.
+  rewrite (lm_push_fresh _ _ _ Hh). apply Z.leb_gt in Hcap.
+  split; [exact Hh|]. split; [exact Hcap|]. exists acc'. reflexivity.
+Qed.
+
+(** a transaction accepted while no pooled transaction has its short hash is indexed *)
+Lemma cache_push_fresh_owner sh c now t st :
+  1 <= c_peracc c -> c_qcap c <= c_shmax c -> consistent sh c st ->
+  snd (cache_push sh c now t st) = E_OK ->
+  mem_n (sh (t_h t)) (map sh (keys (s_q st))) = false ->
+  sh_owner sh (fst (cache_push sh c now t st)) (t_h t) t.
+Proof.
+  intros Hp Hsm K Ok Hf.
+  destruct (cache_push_ok sh c now t st Hp K Ok) as [Hh [Hlt [acc' E]]]. rewrite E.
+  assert (Hn : ~ In (sh (t_h t)) (keys (s_sh st))).
+  { intros X. unfold keys in X. apply in_map_iff in X as [[k t'] [Ek Hin]]. cbn [fst] in Ek. subst k.
+    destruct (k_sh_sub _ _ _ K _ _ Hin) as [E1 E2].
+    assert (M : mem_n (sh (t_h t)) (map sh (keys (s_q st))) = true).
+    { apply mem_n_in. rewrite E1. apply in_map. rewrite <- qtx_keys. eapply in_keys; eauto. }
+    congruence. }
+  split.
+  - unfold qtx. cbn [s_q]. rewrite map_app. apply in_or_app. right. left. reflexivity.
+  - cbn [s_sh]. unfold sh_push.
+    assert (Hex : lm_exist (sh (t_h t)) (s_sh st) = false) by (apply lm_exist_false; exact Hn).
+    rewrite Hex. pose proof (sh_size_le sh c st K) as Sz.
+    destruct (c_shmax c <=? lm_size (s_sh st)) eqn:Z; [apply Z.leb_le in Z; lia|].
+    rewrite (lm_push_fresh _ _ _ Hn), lm_get_app.
+    apply lm_get_none_iff in Hn. rewrite Hn. cbn [lm_get]. rewrite N.eqb_refl. reflexivity.
+Qed.
+
+(** first come, first indexed, and kept: whatever else collides later *)
+Lemma first_come_found sh c es1 now t es2 :
+  1 <= c_peracc c -> c_qcap c <= c_shmax c ->
+  let s0 := run sh c init es1 in
+  let s1 := fst (step sh c s0 (EPush now t)) in
+  snd (step sh c s0 (EPush now t)) = E_OK ->
+  mem_n (sh (t_h t)) (map sh (keys (s_q s0))) = false ->
+  forallb (fun s => mem_n (t_h t) (keys (s_q s))) (run_states sh c s1 es2) = true ->
+  sh_owner sh (run sh c s1 es2) (t_h t) t.
+Proof.
+  intros Hp Hsm s0 s1 Ok Hf G.
+  assert (K0 : consistent sh c s0) by (apply run_consistent; [exact Hp|apply init_consistent; exact Hp]).
+  assert (K1 : consistent sh c s1) by (apply step_consistent; assumption).
+  apply (run_owner sh c); [exact Hp|exact K1| |exact G].
+  unfold s1. cbn [step] in *. apply cache_push_fresh_owner; assumption.
+Qed.
+
+(** * the short-hash clause still fails without injectivity along the history *)
 Definition shash_full_claim : Prop :=
   forall (sh : N -> N) (c : config) (es : list event),
     1 <= c_peracc c -> c_qcap c <= c_shmax c ->
@@ -376,18 +585,34 @@ Definition shash_full_claim : Prop :=
 Definition wA : tx := mkTx 1 0 1000 98 [0].
 Definition wB : tx := mkTx 2 1 1000 98 [0].
 Definition wcfg : config := mkCfg 4 4 4 4 600.
-(** push A, push B (same short hash), remove B: A is pooled alone, yet not found *)
-Definition wevents : list event := [EPush 0 wA; EPush 0 wB; ERemove [2%N]].
+Definition wsh : N -> N := fun _ => 0%N.
+(** push A, push B (same short hash: B is not indexed), remove A: B is pooled
+    alone, yet its short-hash lookup is empty *)
+Definition wevents : list event := [EPush 0 wA; EPush 0 wB; ERemove [1%N]].
 
 Lemma shash_full_refuted : ~ shash_full_claim.
 Proof.
   intros H.
   assert (P1 : 1 <= c_peracc wcfg) by (cbn; lia).
   assert (P2 : c_qcap wcfg <= c_shmax wcfg) by (cbn; lia).
-  specialize (H (fun _ => 0%N) wcfg wevents P1 P2 eq_refl 1%N wA).
-  assert (X : In (1%N, wA) (qtx (run (fun _ => 0%N) wcfg init wevents))) by (vm_compute; left; reflexivity).
+  specialize (H wsh wcfg wevents P1 P2 eq_refl 2%N wB).
+  assert (X : In (2%N, wB) (qtx (run wsh wcfg init wevents))) by (vm_compute; left; reflexivity).
   apply H in X. vm_compute in X. discriminate.
 Qed.
+
+(** the earlier witness (push A, push B, remove B) is repaired: A keeps its
+    entry; this is an instance of [first_come_found] with a colliding history *)
+Definition wevents_old : list event := [EPush 0 wB; ERemove [2%N]].
+
+Lemma example_owner_kept :
+  let s1 := fst (step wsh wcfg init (EPush 0 wA)) in
+  snd (step wsh wcfg init (EPush 0 wA)) = E_OK
+  /\ mem_n (wsh 1%N) (map wsh (keys (s_q init))) = false
+  /\ forallb (fun s => mem_n 1%N (keys (s_q s))) (run_states wsh wcfg s1 wevents_old) = true
+  /\ map (fun s => map fst (s_q s)) (run_states wsh wcfg s1 wevents_old) = [[1; 2]; [1]]%N
+  /\ forallb (sh_inj_pool wsh) (run_states wsh wcfg s1 wevents_old) = false
+  /\ lm_get (wsh 1%N) (s_sh (run wsh wcfg s1 wevents_old)) = Some wA.
+Proof. vm_compute. repeat split; reflexivity. Qed.
 
 (** * non-vacuity *)
 Definition xid : N -> N := fun h => h.
